@@ -49,6 +49,7 @@ func main() {
 	}
 	if os.Getenv("C11_SKIP_B") == "" {
 		step("part B", func() { partB(r) })
+		step("part B pool churn", func() { jobChurn(r) })
 	}
 
 	flush(r)
